@@ -3,6 +3,7 @@ package wit
 import (
 	"fmt"
 	"reflect"
+	"runtime"
 	"time"
 
 	"github.com/philpearl/plenc"
@@ -84,5 +85,58 @@ func init() {
 			return fmt.Errorf("accepted, but the times read back as %v / %v", out.A, out.P)
 		}
 		return nil
+	}})
+}
+
+func init() {
+	All = append(All, W{ID: "D30", Property: "C04", What: "an intern-tagged field copies its whole table for every unseen value: the memory one Unmarshal allocates grows with the number of distinct values the instance has ever decoded (unbounded under hostile input), not with the input length", Run: func() error {
+		type T struct {
+			S string `plenc:"1,intern"`
+		}
+		p := newP(false, false)
+		var ms runtime.MemStats
+		decode := func(s string) uint64 {
+			data := append([]byte{0x0a, byte(len(s))}, s...)
+			var out T
+			runtime.ReadMemStats(&ms)
+			before := ms.TotalAlloc
+			if err := p.Unmarshal(data, &out); err != nil {
+				return 0
+			}
+			runtime.ReadMemStats(&ms)
+			return ms.TotalAlloc - before
+		}
+		first := decode("aaa")
+		for i := 0; i < 4000; i++ {
+			decode(fmt.Sprintf("v%05d", i))
+		}
+		last := decode("zzz")
+		if last > 32<<10 && last > 20*first {
+			return fmt.Errorf("decoding a 5-byte input allocated %d bytes after 4000 distinct values (the first decode allocated %d)", last, first)
+		}
+		return nil
+	}})
+}
+
+func init() {
+	All = append(All, W{ID: "D29", Property: "C08", Fatal: true, What: "a struct codec allocates a lookup table of (largest index + 1) entries: plenc:\"4611686018427387904\" panics in makeslice, and an index of a few hundred million asks for gigabytes", Run: func() error {
+		type T struct {
+			A int `plenc:"1"`
+			B int `plenc:"4611686018427387904"`
+		}
+		return guard(func() error {
+			p := newP(false, false)
+			c, err := p.CodecForType(reflect.TypeOf(T{}))
+			if err != nil {
+				return nil // an error naming the problem is fine
+			}
+			_ = c
+			in := T{A: 1, B: 2}
+			var out T
+			if err := roundTrip(p, &in, &out); err != nil {
+				return err
+			}
+			return expectEq(out, in)
+		})
 	}})
 }
